@@ -50,7 +50,8 @@ def run_impl(case, sets=None, alpha=None):
                                               lay[k] if k < len(lay) else ('C', 'C'),
                                               dty[k] if k < len(dty) else None, msk[k] if k < len(msk) else None)
                          for k, (v, e) in enumerate(sets if sets is not None else case['datasets'])]
-                test = TestChi2(*dsets, name='chi2', alpha=case['alpha'] if alpha is None else alpha,
+                test = TestChi2(*dsets, name='chi2',
+                                alpha=layouts.scalar(case['alpha'] if alpha is None else alpha, case.get('alpha_type')),
                                 ignore_empty=case['ignore_empty'])
                 res = test.evaluate()
                 ndat = len(dsets) - 1
@@ -203,6 +204,74 @@ def oracle(ctx, case, obs):
                            key='verdict-law')
         return False
     return True
+
+
+def obs_close(a, b, alpha):
+    '''two observations of the same numbers (the sum may be taken in another memory order)'''
+    if 'chi2' not in a or 'chi2' not in b or a['ndf'] != b['ndf']:
+        return False
+    if not all(rel_close(unbits(x), unbits(y), 1e-12) for x, y in zip(a['chi2'], b['chi2'])):
+        return False
+    if not all(rel_close(unbits(x), unbits(y), 1e-9) or abs(unbits(x) - unbits(y)) < 1e-300
+               for x, y in zip(a['p'], b['p'])):
+        return False
+    near = any(abs(unbits(x) - alpha) <= 1e-9 * alpha for x in a['p'] if unbits(x) == unbits(x))
+    return near or a['verdict'] == b['verdict']
+
+
+def inplace_history(ctx, case, obs):
+    '''evaluate; edit an input array IN PLACE (error scaled, one error set, zero errors filled in,
+    values shifted, a write through the parent array of which the error is a slice); evaluate the
+    same test again and a brand-new test on the same dataset objects: both must give what fresh
+    datasets built from copies of the current numbers give'''
+    from valjean.eponine.dataset import Dataset
+    from valjean.gavroche.stat_tests.chi2 import TestChi2
+    if not case['shape'] or case.get('masks') or case.get('dtypes'):
+        return
+    tag = f' :: {json.dumps(case)[:600]}'
+    steps = []
+    try:
+        import warnings
+        with np.errstate(all='ignore'), warnings.catch_warnings():
+            warnings.simplefilter('ignore')
+            dsets, parent, owner = layouts.writable_datasets(Dataset, case, unbits, ctx.rng)
+
+            def canon(r):
+                return {'verdict': bool(r), 'chi2': [bits(np.ma.filled(x, NAN)) for x in r.chi2],
+                        'ndf': [int(x) for x in r.test.ndf], 'p': [bits(np.ma.filled(x, NAN)) for x in r.pvalue]}
+
+            def new_test():
+                return TestChi2(*dsets, name='chi2', alpha=case['alpha'], ignore_empty=case['ignore_empty'])
+            test = new_test()
+            if not obs_close(canon(test.evaluate()), obs, case['alpha']):
+                ctx.oracle_failure('the same numbers on writable arrays give another result' + tag, case,
+                                   key='inplace-first')
+                return
+            def used_pattern():
+                return [np.logical_or(np.asarray(dsets[0].error) > 0, np.asarray(d.error) > 0).tolist()
+                        for d in dsets[1:]]
+            built_with = used_pattern()
+            for _ in range(ctx.rng.choice([1, 2])):
+                steps.append(layouts.edit_in_place(dsets, parent, owner, ctx.rng))
+                ncase = dict(case, datasets=layouts.current_numbers(dsets, bits))
+                fresh = run_impl(ncase)
+                routes = [('a new test on the same datasets', canon(new_test().evaluate()))]
+                if not case['ignore_empty'] or used_pattern() == built_with:
+                    # (a TestChi2 computes its mask of used bins and ndf when it is constructed: a test
+                    # built before an edit that changes WHICH bins are empty keeps the old mask)
+                    routes.append(('the same test evaluated again', canon(test.evaluate())))
+                for what, got in routes:
+                    if not obs_close(got, fresh, case['alpha']):
+                        ctx.oracle_failure(
+                            f'after the in-place edits {steps}, {what} gives chi2 '
+                            f'{[unbits(b) for b in got["chi2"]]}, ndf {got["ndf"]}; fresh datasets with the '
+                            f'current numbers give {[unbits(b) for b in fresh.get("chi2", [])]}, '
+                            f'{fresh.get("ndf")}' + tag, dict(ncase, before=case['datasets'], edits=steps),
+                            key='inplace-edit')
+                        return
+    except Exception as exc:  # noqa
+        ctx.oracle_failure(f'in-place history {steps} raises {type(exc).__name__}' + tag, case,
+                           key='inplace-raises')
 
 
 def permuted(ctx, case, obs):
@@ -458,7 +527,7 @@ def run(ctx):
     ctx.rule = ('corpus (docstring-like examples, all bins empty, one-sided zero errors, NaN/inf, scalars) + random '
                 'comparisons: scalar to 3-d, 1..3 compared datasets, both option values, zero-error patterns at rates '
                 '0..100% (correlated between the two datasets so that empty bins occur), NaN/inf only with the option '
-                'off, magnitudes 1e-321..1e304 (tiny, subnormal and huge errors/differences whose squares under/overflow, 22% of the cases), every combination of inf/NaN/0/finite errors across the two sides, arrays handed over in 7 memory layouts, 14% integer-valued data with int64/int32/uint/Python-int dtypes (all-int or mixed with float datasets), 12% datasets masked through Dataset.mask(), every test evaluated twice + boundary cases alpha == p-value exactly (and its float neighbours); each '
+                'off, magnitudes 1e-321..1e304 (tiny, subnormal and huge errors/differences whose squares under/overflow, 22% of the cases), every combination of inf/NaN/0/finite errors across the two sides, arrays handed over in 7 memory layouts, 14% integer-valued data with int64/int32/uint/Python-int dtypes (all-int or mixed with float datasets), 12% datasets masked through Dataset.mask(), every test evaluated twice; on 40% of the cases an input array is edited IN PLACE between two evaluations (error scaled / one item set / zeros filled / values shifted / write through the parent of a sliced error array) and the same test and a new test must give what fresh datasets with the current numbers give + boundary cases alpha == p-value exactly (and its float neighbours); each '
                 'case re-run with permuted bins; non-trivial = more than one bin, ndf > 0, and bins left out when the '
                 'option is on')
     cases = corpus()
@@ -476,6 +545,10 @@ def run(ctx):
         case = gen_int_case(ctx.rng, quick) if q < 0.14 else gen_case(ctx.rng, quick)
         if 0.14 <= q < 0.28 and plain_numbers(case):
             case = add_masks(ctx.rng, case)
+        if ctx.rng.random() < 0.3:                  # alpha as a NumPy number
+            atyp = ctx.rng.choice(layouts.ALPHA_TYPES[1:])
+            case = dict(case, alpha_type=atyp,
+                        alpha=float(np.float32(case['alpha'])) if atyp == 'float32' else case['alpha'])
         rand.append(case)
     counts = mk([2, 3], 0.05, False, ([52, 53, 52, 54, 55, 90], [2, 3, 1, 2, 3, 1]),
                 ([51, 59, 58, 53, 45, 10], [1, 1, 2, 4, 1, 1]))
@@ -494,10 +567,15 @@ def run(ctx):
         obs = run_impl(case)
         if oracle(ctx, case, obs) and not case.get('masks'):
             permuted(ctx, case, obs)
+            if ctx.rng.random() < 0.4:
+                inplace_history(ctx, case, obs)
+                ctx.count('inplace_edit_histories')
         if case.get('masks'):
             ctx.count('masked_cases')
         if case.get('dtypes'):
             ctx.count('integer_dtype_cases')
+        if case.get('alpha_type'):
+            ctx.count('alpha_type_' + case['alpha_type'])
         nontrivial = classify(ctx, case, obs)
         ctx.case_seen(case, nontrivial, sample_every=499)
         if 'raise' in obs:
